@@ -103,6 +103,14 @@ theorem tbl_unpaid_only_updates : ∀ client k o,
     (!(client && hasW (tr client k o) && (o.pay != .ok || !isPaid k)) || (o.h1 && kindFam k != 0)) = true :=
   allTable_spec (by decide +kernel)
 
+/-- C03 (update only): a put without a fully valid payment happens only when the validation's own read of the
+local copy (`GetLocalRecord`) found a record, and one of the kind it delivers — so the put is a checked update
+of that record (counter compared / sets merged), never a first store.  True only of the repaired code
+(`padUpdateNeedsLocal`, `regUpdateNeedsLocal`, `txFailedPayNeedsLocal`, `regFailedPayNeedsLocal`). -/
+theorem tbl_unpaid_put_reads_local : ∀ client k o,
+    (!(client && hasW (tr client k o) && (o.pay != .ok || !isPaid k)) || (o.lSome && o.lOk && kindFam k != 0)) = true :=
+  allTable_spec (by decide +kernel)
+
 theorem tbl_chunk_never_rewritten : ∀ client k o,
     (!(o.h1 && kindFam k == 0) || !hasW (tr client k o)) = true :=
   allTable_spec (by decide +kernel)
